@@ -20,7 +20,7 @@ import (
 type raceLaneCfg struct{ procs, div int }
 
 var raceLaneConf = map[string]raceLaneCfg{
-	"C02": {2, 16}, "C03": {2, 4}, "C04": {2, 8}, "C06": {2, 16}, "C08": {2, 7}, "C09": {2, 16},
+	"C02": {2, 16}, "C03": {2, 4}, "C04": {1, 1}, "C06": {2, 16}, "C08": {2, 7}, "C09": {2, 16},
 	"C11": {2, 8}, "C12": {2, 16}, "C18": {2, 8}, "C19": {2, 16}, "C20": {2, 16},
 }
 
